@@ -4,6 +4,7 @@ import (
 	"encoding/json"
 	"fmt"
 	"go/ast"
+	"go/constant"
 	"go/token"
 	"go/types"
 	"os"
@@ -706,10 +707,15 @@ func (w *World) originValues(v ssa.Value) []ssa.Value {
 		case *ssa.Extract:
 			if call, ok := x.Tuple.(*ssa.Call); ok {
 				if callee := w.newCallee(call); callee != nil {
-					for _, b := range callee.Blocks {
-						if ret, ok := b.Instrs[len(b.Instrs)-1].(*ssa.Return); ok && x.Index < len(ret.Results) {
-							walk(unspill(ret.Results[x.Index], b), depth+1)
+					for _, ex := range exitsOf(callee) {
+						if ex.Ret == nil || x.Index >= len(ex.Ret.Results) {
+							continue
 						}
+						rv := unspill(ex.Ret.Results[x.Index], ex.Block)
+						if k, isConst := rv.(*ssa.Const); isConst && ex.Kind == exitFailure && x.Index != errResultIndex(callee) && isZeroConst(k) {
+							continue // `return <zero>, err`: no value is handed out on a failure
+						}
+						walk(rv, depth+1)
 					}
 					return
 				}
@@ -736,10 +742,88 @@ func (w *World) originValues(v ssa.Value) []ssa.Value {
 // isPlumbingCall: standard-library calls that only move a collection around (keys of a map,
 // a sorted or cloned copy, an iterator): they decide nothing about an element.
 func isPlumbingCall(name string) bool {
-	for _, p := range []string{"maps.Keys", "maps.Values", "maps.All", "slices.Sorted", "slices.Collect", "slices.Clone", "slices.Values", "slices.All", "func:"} {
+	for _, p := range []string{"common.MapKeys", "common.MapValues", "maps.Keys", "maps.Values", "maps.All", "slices.Sorted", "slices.Collect", "slices.Clone", "slices.Values", "slices.All", "func:"} {
 		if strings.HasPrefix(name, p) {
 			return true
 		}
 	}
 	return false
+}
+
+func isZeroConst(k *ssa.Const) bool {
+	if k.IsNil() || k.Value == nil {
+		return true
+	}
+	switch k.Value.Kind() {
+	case constant.String:
+		return constant.StringVal(k.Value) == ""
+	case constant.Int:
+		return constant.Sign(k.Value) == 0
+	case constant.Bool:
+		return !constant.BoolVal(k.Value)
+	}
+	return false
+}
+
+// predicateAnswerOnlyVia: every way for function h to return result idx == pol either
+// passes a branch edge that `legit` accepts, or returns a value whose being pol is itself
+// a fact `legit` accepts. (Used to look through new boolean helper functions in path rules.)
+func (w *World) predicateAnswerOnlyVia(h *ssa.Function, idx int, pol bool, legit func(cnd ssa.Value, pol bool) bool) bool {
+	avoid := map[edge]bool{}
+	for _, b := range h.Blocks {
+		if len(b.Instrs) == 0 {
+			continue
+		}
+		ifi, ok := b.Instrs[len(b.Instrs)-1].(*ssa.If)
+		if !ok || len(b.Succs) != 2 {
+			continue
+		}
+		for i, s := range b.Succs {
+			if legit(ifi.Cond, i == 0) {
+				avoid[edge{b, s}] = true
+			}
+		}
+	}
+	reach, used := reachAvoiding(h, nil, avoid)
+	answers := func(v ssa.Value, reachable bool) bool { // true: fine
+		if !reachable {
+			return true
+		}
+		if k, ok := v.(*ssa.Const); ok {
+			if k.Value != nil && k.Value.Kind() == constant.Bool {
+				return constant.BoolVal(k.Value) != pol
+			}
+			return false
+		}
+		return legit(v, pol)
+	}
+	for _, b := range h.Blocks {
+		if len(b.Instrs) == 0 {
+			continue
+		}
+		ret, ok := b.Instrs[len(b.Instrs)-1].(*ssa.Return)
+		if !ok || idx >= len(ret.Results) {
+			continue
+		}
+		// a failing return gives no answer at all
+		if ei := errResultIndex(h); ei >= 0 && ei != idx {
+			if provablyNonNil(unspill(ret.Results[ei], b), b) {
+				continue
+			}
+		}
+		rv := unspill(ret.Results[idx], b)
+		if phi, isPhi := rv.(*ssa.Phi); isPhi && phi.Block() == b {
+			for i, e := range phi.Edges {
+				p := b.Preds[i]
+				if !answers(e, reach[p] && used[edge{p, b}]) {
+					return false
+				}
+			}
+			continue
+		}
+		if !answers(rv, reach[b]) {
+			return false
+		}
+	}
+	return true
 }
